@@ -37,5 +37,6 @@ for m in "$HERE"/seeded/*/meta.json; do
   dir=$(dirname "$m"); n=$(basename "$dir")
   case "$n" in *"$PAT"*) ;; *) continue;; esac
   for p in $(python3 -c "import json,sys; print(' '.join(json.load(open('$m')).get('caught_by',[])))"); do run_one "seeded-$n" "$dir/patch.diff" "$p" 1; done
+  for p in $(python3 -c "import json,sys; print(' '.join(json.load(open('$m')).get('must_be_silent_under',[])))"); do run_one "seeded-$n" "$dir/patch.diff" "$p" 0; done
 done
 exit $fail
